@@ -681,7 +681,19 @@ func runFrames(o frameOpts, stream []byte) (deep bool, err error) {
 			psrc := tx.NewSrc(stream[w.hdrEnd:end], o.chunks)
 			psrc.EOFWithData = o.eofData
 			ch := wsutil.ControlHandler{Src: psrc, Dst: rec, State: o.state, DisableSrcCiphering: o.noCipher}
-			_ = ch.Handle(h)
+			if o.handle {
+				// callers that dispatch on the opcode themselves call the three exported methods directly
+				switch {
+				case h.OpCode == ws.OpPing || (!h.OpCode.IsControl() && h.OpCode%3 == 0):
+					_ = ch.HandlePing(h)
+				case h.OpCode == ws.OpPong || (!h.OpCode.IsControl() && h.OpCode%3 == 1):
+					_ = ch.HandlePong(h)
+				default:
+					_ = ch.HandleClose(h)
+				}
+			} else {
+				_ = ch.Handle(h)
+			}
 			deep = true
 			if e := srcOracle(what, psrc, rec); e != nil {
 				return deep, e
